@@ -30,7 +30,7 @@ class SpecError(Exception):
 class SchemaError(Exception):
     pass
 
-MODEL_OPS = {"emit", "prep", "parse", "specread", "dupnames", "u_num", "u_text", "u_split", "u_class", "u_fetchtext", "u_fetchrow",
+MODEL_OPS = {"emit", "prep", "parse", "specread", "dupnames", "u_num", "u_text", "u_textrest", "u_split", "u_class", "u_fetchtext", "u_fetchrow",
              "emitjson", "parsejson", "u_jsonstr", "u_jsonnum", "u_jsondoc"}
 
 
@@ -196,6 +196,8 @@ def encode(c, enc):
         return f"u_num {enc.s(c['s'])} {enc.s(c['kw'])} {enc.b(c['neg'])}"
     if op == "u_text":
         return f"u_text {enc.s(c['s'])} {enc.s(c['kw'])} {enc.b(c['dotall'])}"
+    if op == "u_textrest":
+        return f"u_textrest {enc.s(c['s'])} {enc.s(c['kw'])} {enc.b(c['dotall'])}"
     if op == "u_split":
         return f"u_split {enc.s(c['s'])} {enc.s(c['kw'])}"
     if op == "u_class":
@@ -318,6 +320,11 @@ def impl(c):
         pat = c["kw"] + r' ?= ?"(.*)"\s*$'
         m = re.search(pat, c["s"], flags=(re.MULTILINE | re.DOTALL) if c["dotall"] else re.MULTILINE)
         return ("ok", None if m is None else m.groups()[0])
+    if op == "u_textrest":
+        # the name row of _parseNormalTextgrid since fix A33: the captured group and header[m.end(1):]
+        pat = c["kw"] + r' ?= ?"(.*)"\s*$'
+        m = re.search(pat, c["s"], flags=(re.MULTILINE | re.DOTALL) if c["dotall"] else re.MULTILINE)
+        return ("ok", None if m is None else (m.groups()[0], c["s"][m.end(1):]))
     if op == "u_split":
         return ("ok", re.split(c["kw"] + r" ?\[", c["s"], flags=re.MULTILINE))
     if op == "u_class":
@@ -369,6 +376,8 @@ def render(c, r, enc):
         return "ok " + " ".join(out)
     if op == "dupnames":
         return "ok " + " ".join([str(len(v))] + [enc.s(n) for n in v])
+    if op == "u_textrest":
+        return "ok none" if v is None else "ok some " + enc.s(v[0]) + " " + enc.s(v[1])
     if op in ("u_num", "u_text"):
         return "ok none" if v is None else "ok some " + enc.s(v)
     if op == "u_split":
